@@ -63,3 +63,7 @@ func Join()
 // Fault is an environment failure decided by the explorer at a named site.
 func Fault(site string) bool
 func SetFaults(budget int)
+
+// IntRange is a symbolic int in [lo,hi] encoded as a mathematical integer
+// (integer-encoding mode: every arithmetic result is side-conditioned to fit int64).
+func IntRange(name string, lo, hi int) int
